@@ -10,6 +10,7 @@ import (
 	"os"
 	"path/filepath"
 	"runtime/pprof"
+	"sort"
 	"strings"
 	"sync"
 	"testing"
@@ -86,6 +87,9 @@ type scenario struct {
 	seq   bool
 	label string // short stable name of the history for violation keys
 	group string // path family (evidence counters)
+	// plan J (ext_many_test.go): the transfer logs of the block's accounts are part of the observation
+	many     bool
+	manyOnce sync.Once
 }
 
 func key(h []int) histKey { return histKey(fmt.Sprint(h)) }
@@ -174,6 +178,10 @@ func (sc *scenario) growOn(n *chainx.Node, w *chainx.World, h []int) error {
 	obs, err := n.Observe(w.MaxID, w.Hashes())
 	if err != nil {
 		return err
+	}
+	if sc.isMany() {
+		x, _ := manyXfers(n)
+		obs.Extra = map[string]string{"xfers": x}
 	}
 	if sc.r != nil {
 		for _, tx := range b.Transactions {
@@ -295,6 +303,12 @@ func (sc *scenario) runVariant(h []int, v variant) (blocks int, rec *caseRec) {
 			}
 			w = sc.world.Attach(n)
 		}
+		if x, ok := want.Extra["xfers"]; ok {
+			// plan J: order-sensitive data derived from the execution results
+			if got, _ := manyXfers(n); got != x {
+				return fail(i, "transfer logs of the block differ from the reference replica", []string{"reference: " + x, "variant:   " + got})
+			}
+		}
 		if v.Full != 0 && v.Full&(1<<uint(i)) == 0 {
 			if d := lightDiff(n, want); len(d) != 0 {
 				return fail(i, "observation differs from the reference replica", d)
@@ -359,7 +373,8 @@ func (sc *scenario) runVariant(h []int, v variant) (blocks int, rec *caseRec) {
 				if err != nil || len(st) != 1 {
 					return blocks, fail(i, fmt.Sprintf("execution result delivered to subscribers not found in the ledger: %s %s", a.Container.StringLE(), a.Trigger), nil)
 				}
-				if a.VMState != st[0].VMState || a.GasConsumed != st[0].GasConsumed || len(a.Events) != len(st[0].Events) || len(a.Stack) != len(st[0].Stack) || a.FaultException != st[0].FaultException {
+				if a.VMState != st[0].VMState || a.GasConsumed != st[0].GasConsumed || len(a.Events) != len(st[0].Events) || len(a.Stack) != len(st[0].Stack) || a.FaultException != st[0].FaultException ||
+					(sc.isMany() && chainx.AERString([]state.AppExecResult{*a}) != chainx.AERString(st)) { // plan J: events in order, with their items
 					return blocks, fail(i, "execution result delivered to subscribers differs from the stored one", []string{
 						fmt.Sprintf("delivered: %s %s vmstate=%d gas=%d events=%d stack=%d", a.Container.StringLE(), a.Trigger, a.VMState, a.GasConsumed, len(a.Events), len(a.Stack)),
 						fmt.Sprintf("stored:    %s %s vmstate=%d gas=%d events=%d stack=%d", st[0].Container.StringLE(), st[0].Trigger, st[0].VMState, st[0].GasConsumed, len(st[0].Events), len(st[0].Stack))})
@@ -768,12 +783,16 @@ func TestCheck(t *testing.T) {
 			var paths []xpath
 			switch {
 			case f.Name == "multi-faun", f.Name == "multi", f.Name == "multi-srih" && r.Thorough():
-				paths = crossPaths(r.Thorough(), 6)
+				if f.Name == "multi-faun" || r.Thorough() {
+					// plan J (ext_many_test.go): many of a kind in one block
+					paths = manyPaths(r.Thorough(), true, r.Thorough())
+				}
+				paths = append(paths, crossPaths(r.Thorough(), 6)...)
 				// plan H (ext_thresh_test.go): election inputs crossing a threshold
 				paths = append(paths, thrPaths(r.Thorough(), 6, f.Name == "multi-faun")...)
 			case f.Name == "single":
 				// plan I (ext_share_test.go) first: shared MPT nodes x flush schedule on the reference-counting trie modes
-				paths = shPaths(r.Thorough())
+				paths = append(manyPaths(r.Thorough(), false, true), shPaths(r.Thorough())...) // plan J before it (cheapest)
 				paths = append(paths, crossPaths(r.Thorough(), 1)...) // one-block epochs: the committee is refreshed every block
 				paths = append(paths, thrPaths(r.Thorough(), 1, true)...)
 			case f.Name == "single-hf":
@@ -870,6 +889,10 @@ func TestCheck(t *testing.T) {
 		}
 		xscs = keep
 	}
+	// plan J first, whatever the family: a deadline must not cut it
+	sort.SliceStable(xscs, func(i, j int) bool {
+		return strings.HasPrefix(xscs[i].group, "J") && !strings.HasPrefix(xscs[j].group, "J")
+	})
 	xbuilt := make([]bool, len(xscs))
 	r.Parallel(len(xscs), func(i int) {
 		if err := xscs[i].growPath(); err != nil {
@@ -999,6 +1022,7 @@ func TestCheck(t *testing.T) {
 		}
 	}
 	stopProf()
+	manyCov := manyCoverage(xscs, xbuilt)
 	shCov := shStats(xscs, xbuilt)
 	shScalar := func(k string) any {
 		if shCov == nil {
@@ -1013,6 +1037,21 @@ func TestCheck(t *testing.T) {
 		"plan_I_group_runs_with_a_shared_leaf":    shScalar("group_runs_with_a_shared_leaf"),
 		"plan_I_variant_runs":                     shScalar("variant_runs"),
 		"plan_I_trie_reads_compared_with_storage": shScalar("trie_reads_compared_with_storage"),
+		"plan_J_paths":                                       manyCov["paths"],
+		"plan_J_path_groups":                                 manyCov["path_groups"],
+		"plan_J_variant_runs":                                manyCov["variant_runs"],
+		"plan_J_fresh_replica_replays":                       manyCov["fresh_replica_replays"],
+		"plan_J_many_blocks":                                 manyCov["many_blocks"],
+		"plan_J_distinct_many_block_results":                 manyCov["distinct_many_block_results"],
+		"plan_J_blocks_with_ge2_oracle_rewards_postpersist":  manyCov["blocks_with_ge2_oracle_rewards_in_postpersist"],
+		"plan_J_blocks_with_ge2_notary_rewards_onpersist":    manyCov["blocks_with_ge2_notary_rewards_in_onpersist"],
+		"plan_J_blocks_with_ge2_fee_burns_onpersist":         manyCov["blocks_with_ge2_fee_burns_in_onpersist"],
+		"plan_J_max_oracle_nodes_paid_in_one_postpersist":    manyCov["max_oracle_nodes_paid_postpersist"],
+		"plan_J_max_notary_nodes_paid_in_one_onpersist":      manyCov["max_notary_nodes_paid_onpersist"],
+		"plan_J_max_fee_payers_burnt_in_one_onpersist":       manyCov["max_fee_payers_burnt_onpersist"],
+		"plan_J_transfer_log_entries_of_reference_compared":  manyCov["transfer_log_entries_reference"],
+		"plan_J_repetitions_per_path":                        vk.Pick(r, manyRepeatQuick, manyRepeatThorough),
+		"plan_J_many_of_a_kind":                              manyCov,
 		"plan_G_groups":                           xcount,
 		"plan_H_election_thresholds":              thrStats(xscs, xbuilt),
 		"plan_I_shared_nodes":                     shCov,
@@ -1025,7 +1064,7 @@ func TestCheck(t *testing.T) {
 		"traces_validated_against_impl":           int(runs.Get()),
 		"histories":                               int(hist.Get()),
 		"distinct_state_roots":                    roots.Len(),
-		"plans":                                   "A: full alphabet of the tier, depth 2, all variants; B (thorough only): quick alphabet, depth 3, basic variants; C (single families): value flip/delete/re-create alphabet, depth 5, pruning/GC/latest-state and restart variants; D (single families): Policy whitelisted-method fee set / set again / removed / used, depth 4, same variants; F (single families): oracle request answered 0..MaxTraceableBlocks+2 blocks later, all variants; E (single families): candidate life cycle toggles (vote / registration) + idle blocks, depth 7 (<= 2 idle) / 8, restart variants; G (multi; single for designate/setters; single-hf for the block list across Faun): cross-native side effects (Policy block/unblock of candidate / voter / committee member / NEO holder / contract, Management destroy/update of a voting contract, deploy of a blocked hash, re-designation of notary/oracle/state validator nodes with the old list used in the same block, setters of NEO/Policy/Notary/Oracle values) at epoch phases first/inner/last block, history continued over two epoch boundaries + probe block, replayed with ONE restart after block k for every k from the block before the event on; H (ext_thresh_test.go; single, multi-faun, a few on multi): election inputs crossing a threshold - voter turnout exactly at / one below / above 20% of the supply, registered candidates at n-1 / n / n+1 of the committee size, votes in a tie - crossed by ONE operation (vote, unvote, vote change, partial / whole-balance transfer from and to voters, unregistration with votes and the votes leaving later in one go, re-registration, registration by GAS payment, Policy block/unblock of a voter or candidate, NEO setters next to a vote) or by a pair (there and back again), same continuation and variants as G; I (ext_share_test.go; single, runs first): shared MPT nodes x flush schedule on the reference-counting trie modes - groups of two keys and two values of their own (kinds: deep below stored prefix keys / shallow / same key under two contracts / one key a prefix of the other), state after block S in {absent, A, B}^2 up to A<->B, blocks OP1 and OP2 apply {nothing, put A, put B, delete} to each key (4 x 16 x 16 group histories, 256 per chain side by side), T1 flips / creates every key, six idle blocks (GC sweeps), T2 deletes the first key of every group; replayed on KeepOnlyLatestState and RemoveUntraceableBlocks+GC with every subset of the flush points {before S, after S, OP1, OP2, T1} x restart sets {none, after S, after OP2, after both}; additional oracle: the latest state read through the trie equals the contract storage after OP2, T1 and T2",
+		"plans":                                   "A: full alphabet of the tier, depth 2, all variants; B (thorough only): quick alphabet, depth 3, basic variants; C (single families): value flip/delete/re-create alphabet, depth 5, pruning/GC/latest-state and restart variants; D (single families): Policy whitelisted-method fee set / set again / removed / used, depth 4, same variants; F (single families): oracle request answered 0..MaxTraceableBlocks+2 blocks later, all variants; E (single families): candidate life cycle toggles (vote / registration) + idle blocks, depth 7 (<= 2 idle) / 8, restart variants; G (multi; single for designate/setters; single-hf for the block list across Faun): cross-native side effects (Policy block/unblock of candidate / voter / committee member / NEO holder / contract, Management destroy/update of a voting contract, deploy of a blocked hash, re-designation of notary/oracle/state validator nodes with the old list used in the same block, setters of NEO/Policy/Notary/Oracle values) at epoch phases first/inner/last block, history continued over two epoch boundaries + probe block, replayed with ONE restart after block k for every k from the block before the event on; H (ext_thresh_test.go; single, multi-faun, a few on multi): election inputs crossing a threshold - voter turnout exactly at / one below / above 20% of the supply, registered candidates at n-1 / n / n+1 of the committee size, votes in a tie - crossed by ONE operation (vote, unvote, vote change, partial / whole-balance transfer from and to voters, unregistration with votes and the votes leaving later in one go, re-registration, registration by GAS payment, Policy block/unblock of a voter or candidate, NEO setters next to a vote) or by a pair (there and back again), same continuation and variants as G; I (ext_share_test.go; single, runs first): shared MPT nodes x flush schedule on the reference-counting trie modes - groups of two keys and two values of their own (kinds: deep below stored prefix keys / shallow / same key under two contracts / one key a prefix of the other), state after block S in {absent, A, B}^2 up to A<->B, blocks OP1 and OP2 apply {nothing, put A, put B, delete} to each key (4 x 16 x 16 group histories, 256 per chain side by side), T1 flips / creates every key, six idle blocks (GC sweeps), T2 deletes the first key of every group; replayed on KeepOnlyLatestState and RemoveUntraceableBlocks+GC with every subset of the flush points {before S, after S, OP1, OP2, T1} x restart sets {none, after S, after OP2, after both}; additional oracle: the latest state read through the trie equals the contract storage after OP2, T1 and T2; J (ext_many_test.go; single: every case, multi-faun: a few; runs first): many of a kind in ONE block - 2..4 oracle responses of one block whose requests (consecutive ids, every subset of 4 with >= 2 members, ascending / descending transaction order) are assigned to different oracle nodes (2, 3, 4 designated), 2..4 notary-assisted transactions with different NKeys over 2..4 notary nodes, 2..4 fee payers, three voters voting / claiming in one block, contracts deployed and destroyed in one block, all kinds mixed; replayed on r fresh replicas of the reference's own configuration (r = 4 quick / 16 thorough), restart before / after the block and after every block, flush, BoltDB, mempool, SaveInvocations, pruning+GC; observation additionally: NEP-17/NEP-11 transfer log entries of the block in log order and last-updated heights of every account a Transfer event of the block names, execution results delivered to subscribers equal the stored ones event by event",
 		"block_alphabet":                          tplNames(r),
 		"families":                                []string{"single", "single-srih", "multi", "multi-srih", "single-hf (Echidna@4, Faun@5, Gorgon@6)", "multi-faun (plan G only: 4/6 with every hardfork from genesis; 'multi' has Echidna@5 and no Faun)"},
 		"preamble_pads":                           pads,
@@ -1037,6 +1076,8 @@ func TestCheck(t *testing.T) {
 		"pruned variants are compared at the current height only (everything compared there is retained)",
 		"StateRootInHeader on/off are separate families (the block format differs, and block hashes enter native Ledger storage, so roots legitimately differ across families)",
 		"node-local options exercised: backend, KeepOnlyLatestState, RemoveUntraceableBlocks+GC, SkipBlockVerification, SaveStorageBatch, mempool content, flush and restart schedules",
+		"plan J: the enumeration of histories is exhaustive within its bounds, but a subject that emits a batch in Go map iteration order is nondeterministic and is exposed only with a probability: every replay of a many block is an independent trial (a deterministic subject gives identical runs). Two executions of a 2-element batch differ with probability >= 0.2 (a small Go map starts its iteration at one of 8 slot offsets; 4 elements: >= 0.5), every path replays its many blocks on >= 8 replicas (4 fresh ones of the reference's own configuration + flush / restart variants; 16 fresh ones in thorough) and every kind of batch has >= 3 paths in the quick tier: residual probability of missing such a subject < 1% per kind (oracle rewards: 39+6 paths, < 1e-9); a replayed violation of this kind reproduces in some of the 5 replay runs only",
+		"plan J compares transfer logs through ForEachNEP17Transfer / ForEachNEP11Transfer restricted to the entries of the current block (older entries may be pruned on RemoveUntraceableBlocks nodes); no NEP-11 contract exists in the histories (NEP-11 logs are compared and empty)",
 	})
 }
 
@@ -1066,7 +1107,7 @@ func replay(r *vk.Run, fams []family, depth int) {
 	local := append(append(append(flipTemplates(), settingTemplates()...), lifecycleTemplates()...), crossTemplates()...)
 	seq := false // plan G histories are built on one reference node
 	for _, name := range c.History {
-		seq = seq || strings.HasPrefix(name, "x-") || strings.HasPrefix(name, thrPrefix) || strings.HasPrefix(name, shPrefix)
+		seq = seq || strings.HasPrefix(name, "x-") || strings.HasPrefix(name, thrPrefix) || strings.HasPrefix(name, shPrefix) || strings.HasPrefix(name, manyPrefix)
 	}
 	var tpls []chainx.Tpl
 	for _, name := range c.History {
@@ -1076,6 +1117,9 @@ func replay(r *vk.Run, fams []family, depth int) {
 		}
 		if strings.HasPrefix(name, shPrefix) {
 			tpls, found = append(tpls, shTpl(name)), true
+		}
+		if strings.HasPrefix(name, manyPrefix) {
+			tpls, found = append(tpls, manyTpl(name)), true
 		}
 		for _, t := range local {
 			if found {
@@ -1128,6 +1172,13 @@ func replay(r *vk.Run, fams []family, depth int) {
 			}
 			if sv, ok := shVariantByName(c.Variant); ok && !found {
 				v, found = sv, true
+			}
+			if mv, ok := manyVariantByName(c.Variant, len(h)); ok && !found && seq {
+				for _, name := range c.History {
+					if strings.HasPrefix(name, manyPrefix) {
+						v, found = mv, true
+					}
+				}
 			}
 			if !found {
 				v = variant{Name: c.Variant, Backend: strings.SplitN(c.Variant, "/", 2)[0], Flush: c.Flush, Restart: c.Restart}
